@@ -351,6 +351,11 @@ func (g *bundleGen) cmd(s *gScope, depth int) string {
 			if r.Intn(3) == 0 {
 				vals += ", " + (&scopedExprGen{g, s}).lit(t)
 			}
+			if r.Intn(3) == 0 {
+				// a case value may be any expression, e.g. a variable (possibly the only use of a param)
+				vals += ", " + g.expr(s, 1, t)
+				g.stat("case-value-expr")
+			}
 			out += "\n{case " + vals + "}" + g.block(s, depth-1)
 		}
 		if r.Bool() {
